@@ -243,7 +243,7 @@ def run(tier):
     # ... and of C07_output_validates_under_every_serialization_option (skip options, exclude_* settings, methods; inline)
     outside7, errs = core.run_coq_shards(
         "C07_hyps_all_options", header + "From AV Require Import Ser.Spec Ser.RoundTrip Ser.RoundTripInd Schema.BuildSer Schema.SerClassProofs Schema.ImageInvGen Schema.SerClassGen.\n",
-        ccases, "(fun c : " + T5 + " => let '(u, so, t, v) := c in gen_hyps u so t 40 v)", item_type=T5, shard=300)
+        ccases, "(fun c : " + T5 + " => let '(u, so, t, v) := c in gen_hyps u so t 40 v || gen_hyps_refs u so t 40 v)", item_type=T5, shard=300)
     for k, e in errs:
         R.broken.append(f"coq evaluation failed (C07_hyps_all_options shard {k}): {e[-300:]}")
     R.hist["cases_within_the_theorem_every_option"] = len(ccases) - len(outside7)
